@@ -5,6 +5,8 @@ package rules
 import (
 	"fmt"
 	"go/ast"
+	"go/constant"
+	"go/types"
 	"sort"
 	"strings"
 
@@ -44,6 +46,7 @@ type Ctx struct {
 	LoadT func() (*prog.Program, error)
 	Verif string
 	fwd   map[string][]fwdInfo
+	acq   map[*prog.Func]map[string]bool
 	Repo  string
 	rule  string
 	floor map[string]int
@@ -203,4 +206,25 @@ func RunProperty(c *Ctx, p *Property) {
 		}()
 	}
 	c.Finish()
+}
+
+// funcKeyAny renders the key of a types.Func handed over as an interface.
+func funcKeyAny(o interface{ Name() string }) string {
+	if f, ok := o.(*types.Func); ok {
+		return prog.FuncKey(f)
+	}
+	return o.Name()
+}
+
+func constOf(o types.Object) (int64, bool) {
+	c, ok := o.(*types.Const)
+	if !ok {
+		return 0, false
+	}
+	v := constant.ToInt(c.Val())
+	if v.Kind() != constant.Int {
+		return 0, false
+	}
+	i, ok := constant.Int64Val(v)
+	return i, ok
 }
